@@ -16,6 +16,7 @@ ASSUMPTIONS = ["a fault on descriptor 2 (stderr) is out of scope", "the shim doe
                "exit status 0 is judged as 'success'; sanitizer aborts and signals count as non-zero"]
 
 CHILD = os.path.join(pvlib.VERIF, "harness", "children", "child.py")
+DECOY = os.path.join(pvlib.VERIF, "harness", "children", "with_decoy.py")
 
 
 def nonzero(st):
@@ -49,6 +50,19 @@ def run(ctx):
                         "stderr": err.decode(errors="replace")[-300:]},
                         summary=f"{name}: child answered {k} of {n} lines then {'exited ' + end[1] if end[0] == 'exit' else 'died of signal ' + end[1]}; "
                                 f"wrapper status {st} ({'hang' if st == 'HANG' else 'reported success'})")
+        # the wrapper starts with an unrelated, already terminated child of its own (inherited across execve, as after a
+        # shell's process substitution): its status must still be the captive child's
+        for end in (["exit", "7"], ["sig", "9"], ["exit", "0"]):
+            full = [sys.executable, DECOY, ctx.bin(argv[0])] + argv[1:] + [sys.executable, CHILD, "afterall"] + end
+            st, out, err = pvlib.run_tool(full, data, env=pvlib.san_env(), timeout=20)
+            ctx.count("child-ending-with-inherited-child", 1, [(name, tuple(end))])
+            want_ok = end == ["exit", "0"]
+            if (st == 0) != want_ok or (end[0] == "exit" and st != int(end[1])):
+                pvlib.report_violation(ctx, f"decoy:{name}:{'-'.join(end)}", {
+                    "argv": ["python3", "harness/children/with_decoy.py"] + argv + ["python3", "harness/children/child.py", "afterall"] + end,
+                    "stdin_hex": hx(data), "status": st, "stderr": err.decode(errors="replace")[-300:]},
+                    summary=f"{name} started with an unrelated terminated child process: captive child answered everything then "
+                            f"{'exited ' + end[1] if end[0] == 'exit' else 'died of signal ' + end[1]}; wrapper status {st}")
         for c in (0, 1, 3, 255):
             full = [ctx.bin(argv[0])] + argv[1:] + [sys.executable, CHILD, "afterall", "exit", str(c)]
             st, out, err = pvlib.run_tool(full, data, env=pvlib.san_env(), timeout=20)
